@@ -9,6 +9,10 @@ quiescence.  The model is run on ONE schedule (steady builder's mocks, every bui
 caller, the steady builder's reset); theorems `C11.isolation` / `C11.steady_calls` say the observation is the same
 on every schedule, which is what the concurrent implementation is compared against.
 
+`c11.shuffle <seed> <round…>` runs the model on a pseudo-random interleaving of the builder and caller threads (with
+stutter steps on held locks) between the steady builder's mocks and its reset; the check compares it with the
+sequential observation and with the implementation on every quick run.
+
 `c11.sched <same line> :: t t t ...` runs the model on an explicit micro-step schedule (thread numbers in order of
 appearance) and prints the same observation (used to replay interleavings, including stutter steps on held locks).
 
@@ -162,6 +166,24 @@ def observe (sy : Sys) (s : St) : String :=
 def seqSchedule (sy : Sys) : List Nat :=
   (List.range sy.names.length).flatMap (fun t => List.replicate (fuelOf sy t) t)
 
+/-- a pseudo-random interleaving: the steady builder's mocks (phase 1), then `n` slots drawn by an LCG among the builder
+    and caller threads — slots of a thread waiting for a held lock are stutter steps —, then every thread to completion,
+    then the steady builder's reset (phase 3).  This is the decomposition of theorem `C11.steady_targets_restored`. -/
+def shuffleSchedule (sy : Sys) (seed : Nat) : List Nat :=
+  let n := sy.names.length
+  let mids := (List.range n).filter (fun t => t != 0 ∧ t + 1 != n)
+  let first := if (sy.names.getD 0 "").startsWith "S" then [0] else []
+  let mids := if first.isEmpty then (List.range n).filter (fun t => t + 1 != n) else mids
+  let total := mids.foldl (fun a t => a + fuelOf sy t) 0
+  let rec go (k : Nat) (x : Nat) (acc : List Nat) : List Nat :=
+    match k with
+    | 0 => acc.reverse
+    | k + 1 =>
+      let x' := (x * 1103515245 + 12345) % 2147483648
+      go k x' ((mids.getD ((x' / 65536) % (max mids.length 1)) 0) :: acc)
+  first.flatMap (fun t => List.replicate (fuelOf sy t) t) ++ go (total / 2) (seed + 1) []
+    ++ mids.flatMap (fun t => List.replicate (fuelOf sy t) t) ++ List.replicate (fuelOf sy (n - 1)) (n - 1)
+
 /-- lock / access skeleton of the model's sections in the vocabulary of harness/c11/skel (which extracts the same
     from the Go source).  The section bodies come from `Conc.bodyOf` / `Conc.wscript`, so the strings change when the
     model changes. -/
@@ -213,6 +235,12 @@ def handle (toks : List String) : Option String :=
     | some r, some σ =>
       let sy := mkSys r
       some (observe sy (run (layoutOf r) sy.prog σ (init (fun _ => .pristine))))
+    | _, _ => some "bad-op"
+  | "c11.shuffle" :: sd :: rest =>
+    match sd.toNat?, parseRound rest with
+    | some seed, some r =>
+      let sy := mkSys r
+      some (observe sy (run (layoutOf r) sy.prog (shuffleSchedule sy seed) (init (fun _ => .pristine))))
     | _, _ => some "bad-op"
   | "c11.writes" :: _ =>
     match parseRound toks.tail with
